@@ -65,8 +65,10 @@ ObsLoggerOK(s, l, o) ==
     \* what a probe record shows: own attributes, preceded by the ancestors' while the inherit flag is on
     /\ Has(o, "attrs") => o.attrs = Leaves(Chain(s, l), <<>>)
     /\ Has(o, "each") => o.each = EachOf(s, l)
+    \* children made in bulk are visited too, every one of them once, at their depth
+    /\ Has(o, "eachbulk") => {<<o.eachbulk[x][1], o.eachbulk[x][2]>> : x \in DOMAIN o.eachbulk} = EachBulk(s, l)
     \* DumpSubloggers prints the same subtree: the bag of indentation depths agrees with Each
-    /\ Has(o, "dump") => SameBag(o.dump, DumpDepths(s, l))
+    /\ (Has(o, "dump") /\ ~HasBulk(s, l)) => SameBag(o.dump, DumpDepths(s, l))
     \* GetWriterBy(r) is the destination list of severity r; GetWriter() the one of the logger's own level
     /\ Has(o, "getw") => \A x \in 1..Len(o.getw) : SameBag(Written(o.getw[x].evs), Open(s, Dest(s, l, o.getw[x].r)))
     /\ Has(o, "getw0") => SameBag(Written(o.getw0), Open(s, Dest(s, l, s.cfg[l].level)))
